@@ -20,6 +20,8 @@ pub enum ESink {
 
 pub const CAP_QUERY: usize = usize::MAX;
 pub const CAP_AMPLE: usize = usize::MAX - 1;
+/// like CAP_QUERY but exactly the answer, even below the general minimum (see drive_dec.rs)
+pub const CAP_QUERY_EXACT: usize = usize::MAX - 2;
 
 #[derive(Clone, Debug)]
 pub struct EncHistory {
@@ -96,7 +98,7 @@ impl EncHistory {
             "text_code_points_hex": hex32(&self.text),
             "cuts_in_chars": self.cuts,
             "last_on_empty_call": self.last_on_empty,
-            "caps": self.caps.iter().map(|c| match *c { CAP_QUERY => json!("query"), CAP_AMPLE => json!("ample"), n => json!(n) }).collect::<Vec<_>>(),
+            "caps": self.caps.iter().map(|c| match *c { CAP_QUERY => json!("query"), CAP_QUERY_EXACT => json!("query-exact"), CAP_AMPLE => json!("ample"), n => json!(n) }).collect::<Vec<_>>(),
             "fill": self.fill,
             "align": self.align,
         })
@@ -116,6 +118,7 @@ impl EncHistory {
                 .iter()
                 .map(|x| match x.as_str() {
                     Some("query") => CAP_QUERY,
+                    Some("query-exact") => CAP_QUERY_EXACT,
                     Some(_) => CAP_AMPLE,
                     None => x.as_u64().unwrap() as usize,
                 })
@@ -379,7 +382,7 @@ impl EncDriver {
                 } else {
                     let c = h.caps[cap_i % h.caps.len()];
                     cap_i += 1;
-                    if c == CAP_QUERY {
+                    if c == CAP_QUERY || c == CAP_QUERY_EXACT {
                         from_query = true;
                         let q = match (h.src, h.repl) {
                             (Src::Utf8, true) => enc.max_buffer_length_from_utf8_if_no_unmappables(src_len),
@@ -387,7 +390,11 @@ impl EncDriver {
                             (Src::Utf16, true) => enc.max_buffer_length_from_utf16_if_no_unmappables(src_len),
                             (Src::Utf16, false) => enc.max_buffer_length_from_utf16_without_replacement(src_len),
                         };
-                        q.unwrap_or(ample).max(min_cap)
+                        if c == CAP_QUERY_EXACT {
+                            q.unwrap_or(ample)
+                        } else {
+                            q.unwrap_or(ample).max(min_cap)
+                        }
                     } else if c == CAP_AMPLE {
                         ample
                     } else {
@@ -653,7 +660,7 @@ pub fn describe(h: &EncHistory) -> String {
         if h.repl { "with replacement" } else { "without replacement" },
         hex32(&h.text),
         h.cuts,
-        h.caps.iter().map(|c| match *c { CAP_QUERY => "query".to_string(), CAP_AMPLE => "ample".to_string(), n => n.to_string() }).collect::<Vec<_>>()
+        h.caps.iter().map(|c| match *c { CAP_QUERY => "query".to_string(), CAP_QUERY_EXACT => "query-exact".to_string(), CAP_AMPLE => "ample".to_string(), n => n.to_string() }).collect::<Vec<_>>()
     )
 }
 
